@@ -89,7 +89,11 @@ def ref_fs_value(first_octet, action_is_snp, b1, b2, msg_items=None):
 def config_matrix(tier, widths_quick=None, widths_thorough=None):
     """(idw, seqw, crc, large) combinations"""
     ws = tier_pick(tier, widths_quick or QUICK_WIDTHS, widths_thorough or ALL_WIDTHS)
-    return [(i, s, c, l) for (i, s) in ws for c in (0, 1) for l in (0, 1)]
+    out = [(i, s, c, l) for (i, s) in ws for c in (0, 1) for l in (0, 1)]
+    if tier == "quick" and widths_quick is None:
+        # every width value appears at least once in the quick tier too (the thorough tier has the full product)
+        out += [(8, 8, 1, 1), (4, 1, 0, 0)]
+    return out
 
 
 def cname(cfg):
